@@ -46,4 +46,7 @@ run C33 && mut C33 protocol/relaycore/relay_processor.go 'if nilReplies >= cross
 run C27 && mut C27 protocol/lavasession/provider_session_manager.go 'if singleProviderSession.RelayNum >= relayNumber {' 'if singleProviderSession.RelayNum+1 > relayNumber {'
 run C03 && mut C03 x/pairing/keeper/msg_server_relay_payment.go 'if k.IsUniqueEpochSessionExists(ctx, epochStart, relay.Provider, project.Index, relay.SpecId, relay.SessionId) {' 'if k.IsUniqueEpochSessionExists(ctx, epochStart, relay.Provider, project.Index, relay.SpecId, relay.SessionId+1) {'
 run C05 && mut C05 x/pairing/keeper/msg_server_relay_payment.go 'if relay.Epoch > ctx.BlockHeight() || relay.Epoch < 0 {' 'if relay.Epoch > ctx.BlockHeight()+20 || relay.Epoch < 0 {'
+run C15 && mut C15 x/timerstore/types/timer.go '		if value > tickValue {
+			// stop at first' '		if value >= tickValue {
+			// stop at first'
 exit 0
